@@ -48,6 +48,22 @@ type c20op struct {
 
 var c20BanIPs = []string{"1.1.1.1", "2.2.2.2", "10.0.0.7"}
 
+const c20FollowUpIP = "9.9.9.9"
+
+// c20FollowUp is the update made after the restart that follows the crash: small, and independent of every generated
+// update of the same store.
+func c20FollowUp(store string) c20op {
+	switch store {
+	case "board":
+		return c20op{Store: "board", Text: "From x (after the restart):\r\rq\r"}
+	case "ban":
+		return c20op{Store: "ban", IP: c20FollowUpIP, Perm: true}
+	case "acct":
+		return c20op{Store: "acct", Op: "create", Login: "afterwards", Name: "Created after the restart", Access: []byte{0x80, 0, 0, 0, 0, 0, 0, 0}, Password: "$2a$04$abcdefghijklmnopqrstuuJ3TC0X0yZ0yZ0yZ0yZ0yZ0yZ0yZ0yZ0"}
+	}
+	return c20op{Store: "news", Op: "bundle", Name: "AfterTheRestart"}
+}
+
 const c20Syscalls = "openat,open,creat,write,pwrite64,writev,close,rename,renameat,renameat2,unlink,unlinkat,ftruncate,truncate,link,linkat,mkdir,mkdirat,rmdir,fsync,fdatasync"
 
 func helperPath(t interface{ Fatalf(string, ...any) }) string {
@@ -88,7 +104,7 @@ func c20dump(dir string) (string, error) {
 	if err != nil {
 		return "", fmt.Errorf("ban list does not load: %w", err)
 	}
-	for _, ip := range c20BanIPs {
+	for _, ip := range append(append([]string{}, c20BanIPs...), c20FollowUpIP) {
 		is, until := bf.IsBanned(ip)
 		u := "-"
 		if until != nil {
@@ -417,6 +433,22 @@ func c20prop(ev *evid.Rec) func(rt *rapid.T) {
 		if err != nil {
 			rt.Fatalf("VERIF-INCONCLUSIVE %v", err)
 		}
+		// what the server must hold after "crash, restart, one more update": that update applied to the old or to the new value
+		fu := c20FollowUp(store)
+		fuState := map[string]string{}
+		for label, src := range map[string]string{oldState: d0, newState: dn} {
+			df := filepath.Join(scratch, "fu")
+			must(copyDir(src, df))
+			if out, err := exec.Command(helper, df, js(fu)).CombinedOutput(); err != nil || !bytes.Contains(out, []byte("ACK")) {
+				rt.Fatalf("harness: follow-up update %s failed without any fault: %v %s", js(fu), err, out)
+			}
+			st, err := c20dump(df)
+			if err != nil {
+				rt.Fatalf("state after the follow-up update does not load: %v", err)
+			}
+			fuState[label] = st
+			os.RemoveAll(df)
+		}
 		first, lastMut := -1, -1
 		for i, p := range pts {
 			if mutating(p) {
@@ -443,6 +475,20 @@ func c20prop(ev *evid.Rec) func(rt *rapid.T) {
 			}
 			if acked && got != newState {
 				rt.Fatalf("%s: %s: the update was acknowledged but is lost after restart", desc, where)
+			}
+			// life goes on: the restarted server makes one more update (whatever the crash left lying around must not leak into it)
+			if out, err := exec.Command(helper, dj, js(fu)).CombinedOutput(); err != nil || !bytes.Contains(out, []byte("ACK")) {
+				rt.Fatalf("%s: %s: after the restart the next update (%s) fails: %v %s\nfiles: %s", desc, where, opsDesc([]c20op{fu}), err, out, lsDir(dj))
+			}
+			got2, err := c20dump(dj)
+			if err != nil {
+				rt.Fatalf("%s: %s: after the restart and one more update (%s) %v\nfiles: %s", desc, where, opsDesc([]c20op{fu}), err, lsDir(dj))
+			}
+			if miss := c20effect(dj, fu); miss != "" {
+				rt.Fatalf("%s: %s: the update made after the restart was acknowledged but: %s", desc, where, miss)
+			}
+			if got2 != fuState[got] {
+				rt.Fatalf("%s: %s: after the restart and one more update (%s) the stores do not hold that update applied to what the restart had loaded\n--- expected\n%s--- found\n%s", desc, where, opsDesc([]c20op{fu}), clip(fuState[got]), clip(got2))
 			}
 			nt := first >= 0 && j > first && j <= lastMut
 			ev.Case(evid.Hash(desc, j), nt, "store:"+store, "op:"+ops[n-1].Op, fmt.Sprintf("in-window:%v", nt))
